@@ -49,7 +49,7 @@ def systematic():
 
 
 def check(run):
-    deps, vmon = setup(run)
+    deps, vmon = setup(run, cfgs=("std", "phf"))
     thorough = run.tier == "thorough"
     specs = systematic()
     r = gen.rng_for(run.seed, "c12")
@@ -65,6 +65,10 @@ def check(run):
     run.rule = RULE
     samples = standard_flow(run, units, deps["std"], vmon, profiles=("fast",), tag="c12",
                             extra_args=["flipk=%d" % (12 if thorough else 10)])
+    punits = c01.phf_units(r, 300 if thorough else 70, spec_by_unit)
+    samples.update(standard_flow(run, punits, deps["phf"], vmon, profiles=("fast",), tag="c12p",
+                                 extra_args=["flipk=%d" % (12 if thorough else 10)]))
+    units = units + punits
     c01.offline_recheck(run, samples, spec_by_unit)
     pick_samples(run, samples, {u.name: u for u in units})
     run.extra["programs"] = len(units)
